@@ -3,6 +3,7 @@ import itertools
 import hashlib
 import os.path
 import inspect
+import tempfile
 from importlib.machinery import SourceFileLoader
 
 
@@ -176,11 +177,18 @@ def unpack_impl(pkt, raw, offset, **k):
             # creates folder to host our generated code
             os.makedirs(folder, exist_ok=True)
 
-            with open(module_pathname, 'w') as module_file:
+            # write the module aside and move it into place atomically: a
+            # reader (or a later run, if we die here) sees the old file or
+            # the new one, never a partially written module
+            with tempfile.NamedTemporaryFile(
+                'w', dir=folder, suffix='.tmp', delete=False
+            ) as module_file:
                 module_file.write(import_code)
                 module_file.write(cookie_code)
                 module_file.write(pack_code)
                 module_file.write(unpack_code)
+
+            os.replace(module_file.name, module_pathname)
 
             # load it (again)
             module = SourceFileLoader(module_name,
